@@ -516,8 +516,8 @@ class HealSparseMap(object):
             if self._is_wide_mask:
                 values = np.full(self._wide_mask_width, self._sentinel)
             elif self._is_rec_array:
-                values = np.zeros(1, dtype=self._sparse_map.dtype)
-                values[self._primary] = self._sentinel
+                # The blank record (every field at its sentinel), as in the overflow block.
+                values = self._sparse_map[0: 1].copy()
             else:
                 values = self._sentinel
             no_append = True
